@@ -83,6 +83,11 @@ def plan(tier: str, seed: int) -> Plan:
                                    required=False,
                                    bounds="two positions each holding a primitive of any kind or an array/object around the leaves; "
                                           "filter context holds a symbolic primitive"))
+    aq = ["$[-1]", "$[-3]", "$..[-2]", "$[?@[-2] == 1]", "$[1:3:-1]", "$[::0]", "$[?@.a[-1] > $[-9]]", "$..[?@ in [1, 'a', true, null]]", "$[?length(@.a) > @[-5]]"]
+    for i, q in enumerate(aq + (qs if thorough else qs[:8])):
+        spine = ["arr", "objarr", "obj"][i % 3]
+        conds.append(Condition(f"eval-async:{spine}:{q}", "evaluate", H, "evaluate", {"qtext": q, "spine": spine, "maxn": 1, "route": "async"}, T * 2,
+                               required=False, bounds="as eval:*, through finditer_async (coroutines driven without an event loop)"))
     illtyped = ["$[?count(1) == 1]", "$[?count(@.a) == @.b]", "$[?length(@.*) == 1]", "$[?value(@.a) == count(@.b)]", "$[?value('a') == 1]",
                 "$[?count(@.a == 1) == 1]", "$[?length(@.a) && match(@.*, @.b)]", "$[?match(@.*, 1)]", "$[?count(length(@.a)) == 1]"]
     for i, q in enumerate(illtyped if thorough else illtyped[:6]):
